@@ -24,7 +24,7 @@ RULE = ("states = models reachable from {pheno, pheno+depot, pheno_linear} by <=
         "whose code or statements differ from the input and both sides were evaluated")
 ASSUMPTIONS = ["a refactoring that refuses (ValueError/NotImplementedError/ModelError) is counted, not failed",
                "evaluators are documented for models without ODE systems; they are only judged there"]
-BOUNDS = {"quick": "states at depth <= 1 (full alphabet, capped at 36 states); single refactorings", "thorough": "depth <= 2; ordered pairs of refactorings on depth <= 1 states"}
+BOUNDS = {"quick": "states at depth <= 1 (full alphabet, capped at 80 states); single refactorings", "thorough": "depth <= 2; ordered pairs of refactorings on depth <= 1 states"}
 
 START = ["pheno", "pheno_oral", "pheno_linear"]
 
@@ -37,8 +37,9 @@ def refactorings():
         d = {}
         for n in names[:2]:
             d[n] = n + "_R"
-        p0 = [p.name for p in m.parameters if p.name not in m.random_variables.parameter_names][0]
-        d[p0] = "THR_" + p0
+        p0 = [p.name for p in m.parameters if p.name not in m.random_variables.parameter_names]
+        if p0:
+            d[p0[0]] = "THR_" + p0[0]
         return pm.rename_symbols(m, d)
 
     def generic_and_back(m):
@@ -63,7 +64,6 @@ def refactorings():
         "cleanup": pm.cleanup_model,
         "greekify": pm.greekify_model,
         "rename_fresh": rename_fresh,
-        "solve_odes": pm.solve_ode_system,
         "generic_and_back": generic_and_back,
         "to_generic": lambda m: pm.convert_model(m, "generic"),
         "remove_unused": pm.remove_unused_parameters_and_rvs,
@@ -90,7 +90,7 @@ def drive(tier):
 
     from vlib import seqx
 
-    return seqx.drive(sys.modules[__name__], tier, START, depth_limit=depth_limit(tier), max_states=36 if tier == "quick" else 600)
+    return seqx.drive(sys.modules[__name__], tier, START, depth_limit=depth_limit(tier), max_states=80 if tier == "quick" else 800)
 
 
 def run_shard(shard, tier):
@@ -113,10 +113,15 @@ def apply_ref(model, name):
     f = refactorings()[name]
     if model.dataset is not None:
         model = model.replace(dataset=model.dataset.copy())
+    from vlib import mgraph
+
     try:
         with warnings.catch_warnings():
             warnings.simplefilter("ignore")
-            return f(model), "ok"
+            with mgraph.time_limit(20):
+                return f(model), "ok"
+    except mgraph.CallTimeout:
+        return None, "refused:timeout"
     except (ValueError, NotImplementedError, ModelError) as e:
         return None, f"refused:{type(e).__name__}"
     except Exception as e:
@@ -130,14 +135,14 @@ def check_state(hist, model, tier):
     fails = []
     counters = {"refactorings_applied": 0, "refactorings_refused": 0, "refactorings_crashed": 0, "evaluator_points": 0}
     try:
-        envs = mgraph.grid_envs(model)[1:]
+        envs = mgraph.grid_envs(model)[:2]  # parameters at their initial values (a replaced fixed theta is a constant)
         base = mgraph.observe(model, envs, max_ids=2)
     except (ireval.Unsupported, Undefined, ArithmeticError):
         return [], counters
     names = list(refactorings())
     combos = [(n,) for n in names]
     if tier == "thorough" and len(hist[1]) <= 1:
-        combos += [c for c in itertools.permutations(["mu_reference", "make_declarative", "cleanup", "greekify", "solve_odes", "remove_unused", "joint"], 2)]
+        combos += [c for c in itertools.permutations(["mu_reference", "make_declarative", "cleanup", "remove_unused", "joint", "generic_and_back"], 2)]
     for combo in combos:
         m = model
         status = "ok"
@@ -169,7 +174,13 @@ def check_state(hist, model, tier):
     if model.statements.ode_system is None:
         fails += check_evaluators(model, counters)
     else:
-        m, status = apply_ref(model, "solve_odes")
+        import pharmpy.modeling as pm
+
+        try:
+            with mgraph.time_limit(20):
+                m = pm.solve_ode_system(model)
+        except BaseException:
+            m = None
         if m is not None and m.statements.ode_system is None:
             fails += ["after solve_ode_system: " + f for f in check_evaluators(m, counters)]
     return fails, counters
@@ -181,10 +192,15 @@ def _translate_envs(old, new, envs, combo):
     out = []
     oldp = [p.name for p in old.parameters]
     newp = [p.name for p in new.parameters]
+    oldr = list(old.random_variables.names)
+    newr = list(new.random_variables.names)
     for label, env in envs:
         e = dict(env)
-        if "rename_fresh" in combo and len(oldp) == len(newp):
+        if ("rename_fresh" in combo or "greekify" in combo) and len(oldp) == len(newp):
             for a, b in zip(oldp, newp):
+                e[b] = env[a]
+        if "greekify" in combo and len(oldr) == len(newr):
+            for a, b in zip(oldr, newr):
                 e[b] = env[a]
         for p in new.parameters:
             e.setdefault(p.name, float(p.init))
